@@ -3,6 +3,7 @@ import Sourcer.FlagBits
 import Sourcer.Regex
 import Sourcer.Gen
 import Sourcer.Peg
+import Sourcer.Prepare
 /-
   Decoding of protocol terms into model values (driver side only).
 -/
@@ -80,6 +81,47 @@ partial def decodeExpr : Sexp → Option Expr
   | .list [.atom "backtrack", n] => n.nat?.map .backtrack
   | .atom "fail" => some .fail
   | .list [.atom "py", v] => (decodeVal v).map .py
+  | _ => none
+
+def b01 (b : Bool) : String := if b then "1" else "0"
+
+mutual
+/-- inverse of `decodeExpr` (same concrete syntax as `harness/realrun.py` produces) -/
+partial def encodeExpr : Expr → String
+  | .str s sk => s!"(str {b01 sk}" ++ String.join (s.map fun c => s!" {c}") ++ ")"
+  | .regex r sk => s!"(regex {b01 sk} {r})"
+  | .byte b sk => s!"(byte {b01 sk} {b})"
+  | .ref k => s!"(ref {k})"
+  | .seq xs => "(seq" ++ encodeList xs ++ ")"
+  | .cls n xs keep =>
+    let ms := (xs.zip (keep ++ List.replicate xs.length none)).map fun (e, k) =>
+      match k with
+      | some f => s!" (keep {f} {encodeExpr e})"
+      | none => s!" (drop {encodeExpr e})"
+    s!"(cls {n}" ++ String.join ms ++ ")"
+  | .discard a b l => s!"(discard {b01 l} {encodeExpr a} {encodeExpr b})"
+  | .choice xs => "(choice" ++ encodeList xs ++ ")"
+  | .opt e => s!"(opt {encodeExpr e})"
+  | .list e m x =>
+    let mx := match x with
+      | some k => toString (m + k)
+      | none => "inf"
+    s!"(list {m} {mx} {encodeExpr e})"
+  | .sep e s o => s!"(sep {b01 o.discard} {b01 o.trailer} {b01 o.empty} {b01 o.require} {encodeExpr e} {encodeExpr s})"
+  | .expect e => s!"(expect {encodeExpr e})"
+  | .expectNot e => s!"(expectnot {encodeExpr e})"
+  | .skip xs => "(skip" ++ encodeList xs ++ ")"
+  | .longest xs => "(longest" ++ encodeList xs ++ ")"
+  | .backtrack n => s!"(backtrack {n})"
+  | .fail => "fail"
+  | .py v => s!"(py {v.print})"
+partial def encodeList (xs : List Expr) : String :=
+  String.join (xs.map fun x => " " ++ encodeExpr x)
+end
+
+def decodeRuleDef : Sexp → Option RuleDef
+  | .list [.atom "rule", .atom name, ign, body] => do
+    pure ⟨name.toLower == "start", ← decodeExpr body, ← ign.bool?⟩
   | _ => none
 
 def printReg (r : Option Reg) : String :=
